@@ -356,7 +356,7 @@ def acc_hist(maxops, timeout=900):
 
 
 def c13(tier):
-    return simple_sel('C13', ['LawLocs'])(tier) + [acc_hist(2 if tier == 'quick' else 3)]
+    return simple_sel('C13', ['LawLocs'])(tier) + [acc_hist(2 if tier == 'quick' else 4, 3600)]
 
 
 def c05(tier):
